@@ -4,7 +4,7 @@ import glob, json, os
 ROOT = os.path.dirname(os.path.abspath(__file__))
 checks = []
 claimed = set()
-for p in sorted(glob.glob(os.path.join(ROOT, "props", "C*.json"))):
+for p in sorted(glob.glob(os.path.join(ROOT, "props", "C??.json"))):
     c = json.load(open(p))
     pid = c["id"]
     claimed.add(pid)
